@@ -245,6 +245,6 @@ pub fn def() -> PropDef {
             "the server's own certificate is the fixture rsa2048b; certificate tokens are verified with Basic128Rsa15, the policy the server announces for them",
         ],
         abort_possible: false,
-        parts: |tier| vec![part("authenticate", tier.pick(600, 15000), case(), run)],
+        parts: |tier| vec![part("authenticate", tier.pick(600, 150_000), case(), run)],
     }
 }
